@@ -1,1 +1,2 @@
 import BufrSpec.Expand
+import BufrSpec.Ops
